@@ -230,12 +230,6 @@ def gen_op(rng, net, sm):
 
 def classify(op, st0, g, e, what=""):
     """finding id for a set-model mismatch at (g, e) after op on st0"""
-    if "does not exist)" in what and "set_group_out_of_service raises" in what:
-        # attach_to_group onto an existing row does not check that the elements exist (groups.py:149-173 vs :187)
-        ids_ = {i for i, _ in st0["tabs"][ECODE[e]]}
-        if (op[0] == "attach" and any(x not in ids_ for x in op[3])) or \
-                any(r[0] == g and r[1] == ECODE[e] and r[3] != 2 and any(m not in ids_ for m in r[2]) for r in st0["grp"]):
-            return "C27-attach-existing-row-unchecked"
     rows = [r for r in st0["grp"] if r[0] == g and r[1] == ECODE[e]]
     if op[0] in ("detach", "drop_el") and op[1] == e and len(rows) == 1 and rows[0][3] == 2:
         names = [n for _, n in st0["tabs"][ECODE[e]]]
